@@ -6,6 +6,10 @@ import radshock_corr as RC
 
 UNITS = [
     flow.Unit('travelling-wave', groups=['radshock'], props=['props/C12_wave.v'], custom_corr=RC.unit_corr, oracle=RC.oracle),
+    flow.Unit('equilibrium-states', groups=['radshock'], props=['props/C12_jump.v'], custom_corr=RC.unit_corr, oracle=RC.oracle,
+              note='far-upstream / far-downstream states: the residuals handed to fsolve are the radiation-modified jump conditions (theorem, iff), the attributes computed '
+                   'from the root keep the mass flux, and the non-dimensional fluxes are the physical ones with c0 = self.sound, P0 = self.P0 (theorems on the '
+                   'regenerated constructor and residual functions); the end of the real profile is checked to be a root of the regenerated residuals'),
     flow.Unit('flux-constancy', groups=[], props=[], oracle=RC.oracle, always_oracle=True,
               note='mass / total momentum / total energy flux along the computed profiles: the profiles come from SciPy ODE integration and root finding (class NU), checked on the real code for non-default parameters'),
 ]
